@@ -51,6 +51,7 @@ func c25Gen(rng *rand.Rand, tier string, w *bufio.Writer) {
 	}
 	id := 0
 	c25CompactCases(rng, &id, w, 8)
+	c25OutageCases(rng, tier, &id, w)
 	for b := 0; b < nBase; b++ {
 		chron := fmt.Sprintf("chron cfg %d 0.3", c02Pick(rng, 450, 900, 16384))
 		if b%2 == 1 {
@@ -106,6 +107,53 @@ func c25Gen(rng *rand.Rand, tier string, w *bufio.Writer) {
 			id++
 		}
 	}
+}
+
+// a long outage: the disk is full (RLIMIT_FSIZE at the current size: every append fails outright,
+// nothing is transferred) while the swamp keeps writing — the callers only log the errors — until
+// more entries are pending than the 16-bit EntryCount of a block can hold (the real constant,
+// math.MaxUint16); then the fault clears.  A block size far above the batch keeps the size rule
+// out of the way, so the only flushes are the ones the count rule asks for (each fails).
+// Quick: one history with minimal entries (one key, one value).  Thorough: several keys, a second
+// outage, a Sync in the middle of the outage, and the default block size (every entry retries).
+func c25OutageCases(rng *rand.Rand, tier string, id *int, w *bufio.Writer) {
+	emit := func(title string, lines []string) {
+		fmt.Fprintf(w, "case %d %s\n", *id, title)
+		for _, l := range lines {
+			fmt.Fprintln(w, l)
+		}
+		*id++
+	}
+	big := "chron cfg 1073741824 1.0"
+	over := 65535 + 1 + rng.Intn(40)
+	emit(fmt.Sprintf("outage %d", over), []string{big, "live 1000000",
+		"w p:1:1,p:2:2", "sync",
+		"fsizeplus 0", fmt.Sprintf("w p:3:3*%d", over), "sync", "fsize 0",
+		"w p:4:4", "sync", "close", big, "load"})
+	if tier != "thorough" {
+		return
+	}
+	// exactly below / at / over the bound; a Sync and a second batch inside the outage.  Every
+	// WriteEntry past the bound retries the flush and re-encodes a whole block (≈ 26 MB of entries
+	// here), so only a few dozen entries go beyond it (three blocks' worth would take hours).
+	for _, n := range []int{65534, 65535, 65536, 65535 + 45} {
+		emit(fmt.Sprintf("outage %d", n), []string{big, "live 1000000",
+			"w p:1:1,p:2:2", "sync",
+			"fsizeplus 0", fmt.Sprintf("w p:3:3*%d,d:1", n-31), "sync", "w p:5:5*30", "sync", "fsize 0",
+			"w p:4:4", "sync", "close", big, "load"})
+	}
+	// two outages in a row, the second one while the first backlog is only partly written (short write)
+	emit("outage twice", []string{big, "live 1000000",
+		"w p:1:1,p:2:2", "sync",
+		"fsizeplus 0", "w p:3:3*65560", "sync", "fsizeplus 100", "w p:6:6", "sync", "fsize 0",
+		"w p:4:4", "sync", "close", big, "load"})
+	// the default block size: every WriteEntry past the size bound retries the flush (and re-encodes
+	// the whole backlog each time — quadratic in the real code, so this one stays far below the bound)
+	small := "chron cfg 16384 1.0"
+	emit("outage retry-each-entry", []string{small, "live 1000000",
+		"w p:1:1,p:2:2", "sync",
+		"fsizeplus 0", "w p:3:3*1500", "sync", "fsize 0",
+		"w p:4:4", "sync", "close", small, "load"})
 }
 
 // compaction under faults: a small fragmented history, closed, then a compaction through the CLI
